@@ -73,6 +73,9 @@ def plant(D):
                         yield mut(lambda D2, m2, i2, c2, cs=cs: c2.__setitem__("t", Cat(Slc({"k": "fsig", "n": cs["n"], "w": cs["w"], "owner": "design:" + i2["of"]["ref"]}, R(1, None)),
                                                                                        Slc({"k": "fsig", "n": cs["n"], "w": cs["w"], "owner": "design:" + i2["of"]["ref"]}, I(0)))),
                                   "foreign_inside_term")
+        # an anonymous bundle with a member the port's bundle does not have
+        if conn["t"]["k"] == "anon" and sigs:
+            yield mut(lambda D2, m2, i2, c2: c2["t"]["mem"].append({"n": "zz", "t": Sig(sigs[0]["n"])}), "ref_to_missing_bundle_member")
         # faults inside the term: at every replaceable position
         t = conn["t"]
         for pos, (cont, key) in enumerate(sig_terms(t)):
@@ -118,6 +121,10 @@ def plant(D):
                 y["of"]["ref"] = mn + "_twin"
                 top["insts"].append(y)
                 break
+        yield "module_name_clash", D2
+        # name clash between a module and the module that (directly or indirectly) instantiates it
+        D2 = copy.deepcopy(D)
+        D2["mods"][mn]["name"] = D2["mods"][D["top"]].get("name", D["top"])
         yield "module_name_clash", D2
 
 
